@@ -49,6 +49,10 @@ type BOptions struct {
 	// query tool prints only a header and exits non-zero on its first calls
 	// (a scheduler that is briefly unreachable), and lists the pids afterwards
 	FlakyQueue bool
+	// PadPs (cluster mode): `ps` as the queue query tool of the repository
+	// finds it prints the pid column right-aligned in a wider column, the
+	// way procps does for every pid shorter than the column.
+	PadPs bool
 	Fault      *Fault
 	Slow       map[string]int // job key -> milliseconds before the body
 	Gate       []string       // job keys that wait for Release
@@ -455,7 +459,14 @@ func StartB(p *progen.Program, opts *BOptions) (*BRun, error) {
 	}
 	cmd := exec.Command(mrpPath, args...)
 	cmd.Dir = dir
-	env := []string{"PATH=/usr/local/bin:/usr/bin:/bin", "HOME=" + dir, "MROPATH=" + filepath.Join(dir, "mro"),
+	pathVar := "PATH=/usr/local/bin:/usr/bin:/bin"
+	if opts.PadPs {
+		psbin := filepath.Join(dir, "psbin")
+		os.MkdirAll(psbin, 0o755)
+		os.WriteFile(filepath.Join(psbin, "ps"), []byte("#!/bin/sh\n# /verif: procps pads the pid column; here every pid is shorter than the column\n/bin/ps \"$@\" | while read -r p rest; do printf '%9s\\n' \"$p\"; done\n"), 0o755)
+		pathVar = "PATH=" + psbin + ":/usr/local/bin:/usr/bin:/bin"
+	}
+	env := []string{pathVar, "HOME=" + dir, "MROPATH=" + filepath.Join(dir, "mro"),
 		"VERIF_CTL=" + b.Ctl, "VERIF_VSTAGE=" + filepath.Join(root, "vstage"), "MROFLAGS=", "TMPDIR=" + dir, "USER=verif", "LANG=C"}
 	if opts.KillAt > 0 {
 		env = append(env, "VERIF_KILL_AT="+strconv.Itoa(opts.KillAt))
